@@ -6,6 +6,7 @@ package stk
 import (
 	"context"
 	"fmt"
+	"reflect"
 
 	"go.brendoncarroll.net/p2p"
 	"go.brendoncarroll.net/p2p/f/x509"
@@ -33,6 +34,9 @@ type Endpoint interface {
 	AddrOf(to int) string
 	// RoundTrip parses text with this swarm and marshals the result again.
 	RoundTrip(text string) (string, error)
+	// ObjectProblems reports address VALUES (local addresses, peer addresses, and the Src/Dst of every
+	// message seen so far) that are not equal to what parsing their own text yields.
+	ObjectProblems() []string
 	Secure() bool
 	// LookupKeyInHandler looks up the public key of a source address from inside a callback.
 	LookupKey(ctx context.Context, addrText string) (x509.PublicKey, error)
@@ -54,6 +58,37 @@ type ep[A p2p.Addr] struct {
 	sec    p2p.Secure[A, x509.PublicKey]
 	peers  *[]A // address of every node in this cluster (index = node)
 	closer func() error
+	// address values seen in messages whose text does not parse back to an equal value
+	objProblems []string
+	objSeen     map[string]bool
+}
+
+// checkObj: parse(marshal(a)) must be an address equal to a, not merely one with the same text.
+func (e *ep[A]) checkObj(a A, where string) {
+	t := text(a)
+	if e.objSeen == nil {
+		e.objSeen = map[string]bool{}
+	}
+	if e.objSeen[where+t] {
+		return
+	}
+	e.objSeen[where+t] = true
+	b, err := e.sw.ParseAddr([]byte(t))
+	if err != nil {
+		return // reported by the text round trip
+	}
+	if !reflect.DeepEqual(any(a), any(b)) {
+		e.objProblems = append(e.objProblems, fmt.Sprintf("%s %q: the address parsed from its own text (%#v) is not equal to the original (%#v)", where, t, b, a))
+	}
+}
+
+func (e *ep[A]) ObjectProblems() []string {
+	for _, a := range e.sw.LocalAddrs() {
+		e.checkObj(a, "local address")
+	}
+	out := e.objProblems
+	e.objProblems = nil
+	return out
 }
 
 func (e *ep[A]) Node() int { return e.node }
@@ -72,6 +107,8 @@ func (e *ep[A]) TellText(ctx context.Context, addr string, v p2p.IOVec) error {
 
 func (e *ep[A]) Receive(ctx context.Context, fn func(Msg)) error {
 	return e.sw.Receive(ctx, func(m p2p.Message[A]) {
+		e.checkObj(m.Src, "source address")
+		e.checkObj(m.Dst, "destination address")
 		fn(Msg{Src: text(m.Src), Dst: text(m.Dst), Payload: m.Payload})
 	})
 }
